@@ -5,6 +5,8 @@ Domain : generated main-thread programs (Mark / UOD commands / Wait / Base / nes
          initial Base: the default is min), Wait arguments 0, below one tick, multiples and non-multiples of the tick in
          s/min/h; tick interval fixed 0.1 s, tick times epoch-sized or starting at 0; user Pause/Unpause/Hold/Unhold
          between ticks; a generated monotone totaliser (Accumulated Volume / Block Volume for Base L, mL).
+         Block names are free text: two thirds come from a pool of three names, so same-named blocks follow and nest in each
+         other; shadow clocks are kept per Block *line* (instance), the listener's events being matched to lines in order.
          Watches (bodies of Mark/Quick/Wait without thresholds, blocks, Base, End block) run beside the main thread; they do
          not change the lexical scope of any main-thread line.
          Instructions that execute more than once: one macro (body: Mark/Quick/Wait, thresholds allowed) called any number of
@@ -130,14 +132,29 @@ def analyse(case):
     if any(not x for x in interp[1:]):
         cls.add("has-paused-or-held-ticks")
 
-    block_start: dict = {}
+    # Block instances.  Names are free text and may repeat (also nested), so the listener's events are matched to Block
+    # *lines* in order: blocks live in the main thread only and every Block line runs once, hence the k-th block_start event
+    # carrying name X belongs to the k-th Block line named X that was reported started; a block_end event carrying name X ends
+    # the most recently begun instance of X that is still open (End block ends the innermost block, End blocks from the inside out).
+    block_start: dict = {}     # Block line id -> tick of its block_start event
     block_end: dict = {}
     prog_start = None
+    pending: dict = {}
+    for m in sorted((m for m in lines if m.kind == "block" and m.id in r.first_start), key=lambda m: (r.first_start[m.id], m.index)):
+        pending.setdefault(m.bname, []).append(m.id)
+    open_inst: dict = {}
     for e in r.events:
         if e[1] == "block_start" and e[2] != "root":
-            block_start.setdefault("n" + e[2][1:], e[0])
+            q = pending.get(e[2])
+            if q:
+                lid = q.pop(0)
+                block_start[lid] = e[0]
+                open_inst.setdefault(e[2], []).append(lid)
+            else:
+                cls.add("not-judged:block-event-without-started-block-line")
         elif e[1] == "block_end" and e[2] != "root":
-            block_end.setdefault("n" + e[2][1:], e[0])
+            if open_inst.get(e[2]):
+                block_end[open_inst[e[2]].pop()] = e[0]
         elif e[1] == "scope_activate" and e[2] == "Program" and prog_start is None:
             prog_start = e[0]
 
@@ -216,6 +233,10 @@ def analyse(case):
                 sig = "early:%s" % unit
                 if scope is not None and n_s == b:
                     sig = "early:block-start-tick:%s" % ("time" if is_time else "volume")
+                elif scope is not None and any(m.kind == "block" and m.bname == by_id[scope].bname and block_end.get(m.id, n_s + 1) <= n_s
+                                               for m in lines[by_id[scope].index + 1:l.index]):
+                    # kept apart: the clock of a block is lost when an inner block of the same name ends
+                    sig = "early:%s:after-same-named-inner-block" % unit
                 viol(sig, "%r (Base %s, %s) started at tick %d when its scope clock had at most %s %s of %s (scope began at tick %d)%s"
                      % (l.text.strip(), unit, "block level %d" % nest if nest else "program scope", n_s, float(reached),
                         "s" if is_time else "L", float(thr), b, _ctx(case, lines)))
@@ -258,6 +279,11 @@ def analyse(case):
             cls.add("bind:nest%d" % min(nest, 3))
             if any(not interp[j] for j in range(n0, n_s + 1)):
                 cls.add("bind:pause-or-hold-while-awaiting")
+            if scope is not None:
+                inner_same = [m for m in lines[by_id[scope].index + 1:l.index] if m.kind == "block" and m.id in block_end
+                              and m.bname == by_id[scope].bname and block_end[m.id] <= n0]
+                if inner_same:
+                    cls.add("bind:in-block-after-a-same-named-inner-block-ended")
         elif n_s is not None:
             cls.add("threshold-not-binding")
         if n_s is not None and n_s > n0 and scope is None and is_time and interrupt_scope_visible(n0, n_s):
